@@ -12,7 +12,7 @@ Ev == TraceLog[l]
 
 TInit == /\ l = 1 /\ okc = TRUE /\ done = FALSE
          /\ act = [binary |-> FALSE, dir |-> FALSE, fork |-> FALSE, proto |-> 0, winnl |-> FALSE, tunnel |-> FALSE, confirm |-> TRUE]
-         /\ args = [quiet |-> FALSE, overwrite |-> FALSE, binary |-> FALSE, directory |-> FALSE, bufk |-> 1, timeout |-> 0, compress |-> 0, stmux |-> FALSE, winsrv |-> FALSE]
+         /\ args = [quiet |-> FALSE, overwrite |-> FALSE, binary |-> FALSE, directory |-> FALSE, bufk |-> 1, timeout |-> 0, compress |-> 0, stmux |-> FALSE, winsrv |-> FALSE, swidth |-> 0]
          /\ relay = [tmux |-> FALSE, width |-> 0]
          /\ actOut = RewriteAct(act) /\ cfgIn = ServerCfg(RewriteAct(act), args)
          /\ cfgOut = RewriteCfg(ServerCfg(RewriteAct(act), args), relay, act, args)
